@@ -100,7 +100,15 @@ def h_grid(ctx):
         kw["data_names"] = cfg["names"]
     if projection is not None:
         kw["projection"] = projection
+    state_before = dict(vars(g))
+    class_dims = type(g).dims
     ds = g.grid(**kw, **gkw)
+    state_after = dict(vars(g))
+    ctx.claim("grid() leaves the gridder's attributes (and the class defaults) untouched, so a later call is not affected", And(set(state_after) == set(state_before), all(state_after[k] is state_before[k] for k in state_before), type(g).dims is class_dims, g.dims == ("northing", "easting")))
+    if cfg.get("dims"):
+        # a later call without custom names uses the documented defaults again
+        later = g.grid(region=(0.0, 1.0, 0.0, 1.0), shape=(2, 2))
+        ctx.claim("names follow the arguments of each call: defaults are back when none are given", And(all(tuple(later[v].dims) == ("northing", "easting") for v in later.data_vars), set(later.sizes) == {"northing", "easting"}))
     dims = tuple(cfg.get("dims") or ("northing", "easting"))
     names = cfg.get("names") or [("scalars",), ("east_component", "north_component"), ("east_component", "north_component", "vertical_component")][ncomp - 1]
     if isinstance(names, str):
@@ -194,6 +202,9 @@ def h_profile(ctx):
     if cfg.get("dims"):
         kw["dims"] = tuple(cfg["dims"])
     table = g.profile(p1, p2, size, **kw)
+    if cfg.get("dims"):
+        later = g.profile((0.0, 0.0), (1.0, 1.0), 2)
+        ctx.claim("profile column names follow the arguments of each call", list(later.columns)[:2] == ["northing", "easting"])
     dims = tuple(cfg.get("dims") or ("northing", "easting"))
     names = [("scalars",), ("east_component", "north_component")][ncomp - 1]
     cols = [dims[0], dims[1], "distance"] + (["extra_coord"] if cfg.get("extra") else []) + list(names)
